@@ -280,9 +280,13 @@ def check(c, P, M):
                 dec = P.convert_solution(sol, **kw)
                 val = P.is_solution_valid(sol, **kw)
                 # the same assignment handed over as a tuple and as a dict: same decoding, same verdict
-                for other in (tuple(sol), dict(enumerate(sol))):
+                # (a dict is a map from variable to value: the order in which its entries were inserted means nothing)
+                for other in (tuple(sol), dict(enumerate(sol)), dict(reversed(list(enumerate(sol))))):
                     dec2, val2 = P.convert_solution(other, **kw), P.is_solution_valid(other, **kw)
-                    if _canon(dec2) != _canon(dec) or val2 != val:
+                    # NumberPartitioning lists the elements of a part in the order the entries come: the same partition
+                    same = (sorted(map(sorted, dec2)) == sorted(map(sorted, dec))) if cls == "NumberPartitioning" and isinstance(other, dict) \
+                        else _canon(dec2) == _canon(dec)
+                    if not same or val2 != val:
                         v.append("%s: the assignment %r decodes to %r (valid: %s) as a %s but to %r (valid: %s) as a list"
                                  % (cls, sol, dec2, val2, type(other).__name__, dec, val))
                         return v
